@@ -105,9 +105,18 @@ def reused_header(c, rng):
     h = make_header(rng, ver, rand_blocks(rng, rng.randrange(1, 3), [rng.randrange(0, 40)]))
     se = Session(c, rb(rng, 16 if ver != "D" else rng.choice((16, 24))), h)
     for _ in range(rng.randrange(3, 7)):
-        what = rng.choice(["str", "wrap", "version", "version", "setblock", "delblock", "alg", "load", "load", "unwrap"])
+        what = rng.choice(["str", "wrap", "version", "version", "setblock", "delblock", "alg", "load", "load", "unwrap", "update", "setdefault", "pop"])
         cur = se.kb.header.version_id
-        if what == "load":
+        if what == "update":
+            good = (rs(rng, 2).replace("P", "Q").replace("p", "q"), rs(rng, rng.randrange(0, 12)))
+            bad = rng.choice([None, None, (rs(rng, 2).replace("P", "Q").replace("p", "q"), "x\x07y"), ("K", "ABCDEFG"), ("T9", "caf\u00e9"), ("Q1", "ab\n")])
+            se.update([good] + ([bad] if bad else []))
+        elif what == "setdefault":
+            se.setdefault(rs(rng, 2).replace("P", "Q").replace("p", "q"), rng.choice([rs(rng, 5), "a\tb", "\x00"]))
+        elif what == "pop":
+            ks = list(se.kb.header.blocks)
+            se.pop(rng.choice(ks) if ks and rng.random() < 0.8 else "ZZ")
+        elif what == "load":
             # the object loads another header string (often with no optional blocks, or only a pad block) after having
             # serialised its own: nothing of the earlier serialisation may survive
             v2 = rng.choice([v for v in "ABCD" if len(se.kbpk) in VERS[v][1]])
